@@ -57,6 +57,11 @@ func genC10(seed uint64, tier string) *Plan {
 	o.Shift = false
 	o.NoConst = true
 	o.DataSpan = span
+	o.InSubTables = p.Tables
+	if r.Bool(0.6) {
+		// followers answer each (sub)query after a latency of their own
+		p.Cfg.Extra = map[string]int64{"qlat": int64(PickOne(r, []time.Duration{2 * time.Millisecond, 50 * time.Millisecond, 300 * time.Millisecond}))}
+	}
 	p.Ops = append(p.Ops, Op{K: "check", Strs: genBattery(r, p, u, o, r.Range(3, 8))})
 	return p
 }
@@ -177,6 +182,13 @@ func compareClusterQueries(e *Env, c *Cluster, d *Node, sqls []string, sig strin
 		for _, l := range c.Leaders {
 			if !l.Up {
 				continue
+			}
+			if c.p.Cfg.Extra["qlat"] > 0 {
+				// followers plan the query text when it reaches them: with
+				// latency the comparison is only defined while no period
+				// boundary passes, so start just after one (resolutions divide
+				// a minute, latencies add up to less than a second)
+				alignClock(e, int64(time.Millisecond), int64(time.Minute))
 			}
 			pl, pd := l.N.Prepare(sql, true), d.Prepare(sql, true)
 			ql, qd := pl.Run(QOpts{}), pd.Run(QOpts{})
